@@ -1,7 +1,7 @@
 #!/bin/bash
 # tools/run_all.sh <tier> <seed...>  -- run every registered check, one line per (check, seed)
 TIER=${1:-quick}; shift
-cd /verif
+cd "$(dirname "$0")/.."
 for S in "${@:-0}"; do
   for i in $(seq -w 1 20); do
     T0=$(date +%s)
